@@ -89,19 +89,24 @@ CLAIMED = {
          "Not proved: success implies that a finite unifier exists (acyclicity/idempotent closure of the answer) and fuel adequacy; both are observed on every case (walk* of both sides finite and identical)."),
  "C02": ("Theorems: posting u != v stores a constraint that holds exactly when u and v differ (or nothing / failure in the two decided "
          "cases); re-checking after a unification keeps an equivalent constraint, drops only satisfied ones and fails only on violated "
-         "ones; subsumption is implication; normalisation preserves the meaning of the store; the store's meaning is order-free.",
-         "6/C02", "Coq proof: denotation of disequality posting, re-check, subsumption and normalisation + differential correspondence + ground-instance oracle",
-         "The lift to whole programs (answers' ground instances = program's ground solutions) is checked by the ground oracle over a finite universe, not proved."),
+         "ones; subsumption is implication; normalisation preserves the meaning of the store; the store's meaning is order-free. WHOLE "
+         "PROGRAMS (soundness): for any goal, search kind, fuel and number of steps, every valuation that solves a delivered answer "
+         "(its substitution and every stored disequality) satisfies the logical reading of the program (== equality, != difference, "
+         "conjunction, disjunction, relation calls by their bodies) and solves the starting state.",
+         "6/C02", "Coq proof: denotation of disequality posting, re-check, subsumption, normalisation + whole-program logical soundness of delivered answers (via the declarative semantics) + differential correspondence + ground-instance oracle",
+         "The completeness direction for whole programs (every ground solution of the program is an instance of some answer) is checked by the ground oracle over a finite universe, not proved."),
  "C03": ("Theorems: reported constraints mention only reified variables of the answer; constraints() returns exactly the reported "
          "constraints with an operand among the any-variables occurring anywhere in the term (lists and compounds included); reification only "
          "adds bindings to new any-variables.",
          "6/C03", "Coq proof: structural lemmas of purify / anyvars / reify + per-answer structural oracle on the implementation",
          "Injectivity of reification across query variables is checked on every answer, not proved."),
- "C04": ("PARTIAL. Proved: permuting the clauses of a disjunction permutes its admissible answers; two equalities (and two disequalities) "
-         "posted in either order yield the same solutions and no order fails spuriously. The bijection between answer multisets of whole "
-         "reordered programs is checked (all permutations of small conjunctions, FD posting orders), not proved.",
-         "6/C04", "Coq proof of order-freedom at the store/disjunction level + permutation-group oracle on the implementation",
-         "Whole-program bag equivalence under conjunction reordering is not proved."),
+ "C04": ("Proved: permuting the clauses of a disjunction permutes its admissible answers; two equalities (and two disequalities) posted in "
+         "either order yield the same solutions and no order fails spuriously; the logical reading of a goal is independent of the order "
+         "of conjuncts and clauses, and every solution of every delivered answer of any program satisfies it (so a reordering can neither "
+         "add solutions to an answer nor make an answer violate the reordered program). The bijection between answer multisets of whole "
+         "reordered programs (nothing lost) is checked (all permutations of small conjunctions, FD posting orders), not proved.",
+         "6/C04", "Coq proof of order-freedom at the store/disjunction level and of the logical reading + whole-program soundness + permutation-group oracle on the implementation",
+         "That a reordering loses no answers (completeness) is checked on generated programs, not proved."),
  "C12": ("PARTIAL. Proved: the goal everyg solves is the conjunction (from_array) of the instantiated bodies in reverse order, and an empty "
          "collection succeeds exactly once with the state unchanged. That conjunct order does not matter is C04.",
          "6/C12", "Coq proof: everyg = reversed conjunction, empty case + for-vs-explicit-conjunction oracle on the implementation",
